@@ -44,9 +44,9 @@ func VerifInstances(ctx context.Context, cfg *Config, gen *PrometheusGenerator, 
 	return out
 }
 
-// VerifStrictMatch is strictRegex(pattern).MatchString(subject).
+// VerifStrictMatch is the regexp match Match.IsMatch applies to pattern and subject.
 func VerifStrictMatch(pattern, subject string) bool {
-	return strictRegex(pattern).MatchString(subject)
+	return fullMatchRegex(pattern).MatchString(subject)
 }
 
 // VerifParseDurationMatch exposes parseDurationMatch.
